@@ -88,3 +88,26 @@ def tier2(tier, rng):
         one = [pb for pb in _single(h, w) if pb["side"] != [[0] * w for _ in range(h)]]
         for pb in L.sample(rng, one, 12 if th else 3):
             yield pb
+
+
+def big(tier, rng):
+    """2 x N (and N x 2) boards with a two-digit arrow clue: a black clue '>k' in a corner, the loop is a ring
+    around k + 1 columns further along"""
+    th = tier == "thorough"
+    for n in (L.LONG if th else L.sample(rng, L.LONG, 3) + [13]):
+        k = rng.randint(10, n - 2) if n >= 12 else n - 2
+        a = rng.randint(1, n - 1 - k)           # the ring covers columns a .. a + k
+        arrow = [[".."] * n for _ in range(2)]
+        side = [[0] * n for _ in range(2)]
+        arrow[0][0] = ">" + str(k)
+        side[0][0] = 2
+        segs = set()
+        for c in range(a, a + k):
+            segs.add(((0, c), (0, c + 1)))
+            segs.add(((1, c), (1, c + 1)))
+        segs.add(((0, a), (1, a)))
+        segs.add(((0, a + k), (1, a + k)))
+        yield {"h": 2, "w": n, "arrow": arrow, "side": side, "planted": [L.lattice_answer(2, n, segs)]}
+        arrow_t = [[{">": "v"}.get(c[0], c[0]) + c[1:] for c in r] for r in L.transpose_grid(arrow)]
+        segs_t = {((y1, x1)[::-1], (y2, x2)[::-1]) for ((y1, x1), (y2, x2)) in segs}
+        yield {"h": n, "w": 2, "arrow": arrow_t, "side": L.transpose_grid(side), "planted": [L.lattice_answer(n, 2, segs_t)]}
